@@ -1,7 +1,7 @@
 """C12 - media round-trips unchanged and request media is parsed at most once."""
 PROP = 'C12'
-LEAN_MODULES = ['FalconModel.MediaCacheProofs', 'FalconModel.JsonProofs']
-DRIVERS = ['mcdriver', 'jsdriver']
+LEAN_MODULES = ['FalconModel.MediaCacheProofs', 'FalconModel.JsonProofs', 'FalconModel.UrlFormProofs']
+DRIVERS = ['mcdriver', 'jsdriver', 'ufdriver']
 THEOREMS = [
     'Mc.getMedia_spec', 'Mc.getMedia_cached_untouched', 'Mc.runCalls_spec',
     'Mc.deserialize_at_most_once', 'Mc.deserialize_exactly_once', 'Mc.stream_untouched_after_first_call',
@@ -11,6 +11,12 @@ THEOREMS = [
     'Js.scanString_escape', 'Js.parseNumber_dumpsInt', 'Js.mkDict_of_distinct', 'Js.dup_keys_do_not_round_trip', 'Js.loads_dumps_int_over_limit', 'Js.wf_int_iff',
     'Js.handler_round_trip', 'Js.media_round_trip', 'Js.parse_length', 'Js.scanString_length', 'Js.parse_fuel', 'Js.scanString_fuel', 'Js.loads_fuel_irrelevant',
     'Js.dumps_no_control',
+    'Uf.deserialize_serialize', 'Uf.roundtrip_exact', 'Uf.parse_urlencode', 'Uf.parse_urlencode_eq_toQueryStr', 'Uf.normalForm_wf', 'Uf.normalForm_id',
+    'Uf.serialize_ascii', 'Uf.quotePlus_charset', 'Uf.unquote_quotePlus', 'Uf.fieldEntry_field', 'Uf.entries_urlencode',
+    'Uf.normItem_one_element_list', 'Uf.normItem_empty_list', 'Uf.normItem_blank', 'Uf.handler_defaults',
+    'Uf.deserialize_empty', 'Uf.deserialize_non_ascii', 'Uf.deserialize_ascii',
+    'Uf.witness_one_element_list', 'Uf.witness_empty_list', 'Uf.witness_blank_kept', 'Uf.witness_blank_dropped', 'Uf.witness_both_empty',
+    'Uf.witness_blank_in_list', 'Uf.witness_comma_csv', 'Uf.witness_csv_option', 'Uf.witness_same_name',
 ]
 STATEMENTS = {
     'Mc.runCalls_spec': 'for every handler outcome and every sequence of get_media(default_when_empty given or not) calls on a fresh request: each call answers the same value / the same error; the caller default is returned only for media-not-found, only for that call, and is never cached',
@@ -31,6 +37,22 @@ STATEMENTS = {
     'Js.parse_fuel': 'with fuel >= 2*length+1 (values) / 2*length+2 (element and pair loops) the answers of the three mutually recursive parsers do not depend on the fuel',
     'Js.loads_fuel_irrelevant': 'loads equals the same parser run with any larger fuel: a rejection is never an artefact of the termination device',
     'Js.parse_length': 'every successful parser call consumes at least one character',
+    'Uf.deserialize_serialize': 'URLEncodedFormHandler with any keep_blank / csv setting: for every sequence of (name, str | list of str) pairs with pairwise distinct names, deserialize(serialize(d)) succeeds and is the normal form of d - names in order; per name the values that survive (non-empty, or blank values kept and the name non-empty); no survivor: name absent; one survivor: a plain string (a one-element list comes back as a string); several: a list in order. No condition on the characters: "&", "=", ",", "+", "%", space, non-ASCII are all escaped by quote_plus, also under csv=True',
+    'Uf.roundtrip_exact': 'if in addition no pair has name and value both empty (no empty value at all under keep_blank=False) and every list has at least two elements, deserialize(serialize(d)) = d exactly',
+    'Uf.parse_urlencode': 'parse_query_string(urlencode(d, doseq=True), keep_blank, csv) is the normal form of d, for both option values each (distinct names)',
+    'Uf.parse_urlencode_eq_toQueryStr': 'urllib urlencode(d) and falcon to_query_str(normal form of d) are read as the same mapping by the parser (they differ as text: "+" vs "%20"); proved by applying the C08 theorem Gt.parse_toQueryStr to the normal form',
+    'Uf.normalForm_wf': 'the normal form of a document with distinct names satisfies the side conditions WFmap of the C08 to_query_str round trip',
+    'Uf.normalForm_id': 'a document whose items satisfy the C08 item condition (Gt.ItemOk) is its own normal form',
+    'Uf.serialize_ascii': 'every byte serialize produces is below 0x80 (so deserialize never takes its error branch on a serialized form)',
+    'Uf.quotePlus_charset': 'quote_plus only emits always-safe characters, "+", "%" and upper-case hex digits',
+    'Uf.unquote_quotePlus': 'falcon decode(unquote_plus=True) (all code paths, Probe.decodeImpl) undoes urllib quote_plus byte for byte',
+    'Uf.fieldEntry_field': 'the parser reads one rendered field name=value as the scalar entry (name, value) if the pair survives (keeps) and as nothing otherwise, whatever the csv option',
+    'Uf.deserialize_empty': 'an empty body deserializes to the empty mapping',
+    'Uf.deserialize_non_ascii': 'a body containing a byte >= 0x80 is MediaMalformedError',
+    'Uf.deserialize_ascii': 'every ASCII body deserializes to what parse_query_string gives with the handler options (no third outcome)',
+    'Uf.handler_defaults': 'the constructor defaults are keep_blank=True, csv=False',
+    'Uf.witness_same_name': 'the pair sequence [(a,x),(a,y)] comes back as {a:[x,y]}: distinct names are necessary',
+    'Uf.witness_csv_option': 'the body a=x,y is a list under csv=True and the string "x,y" under the default: the csv option matters for foreign bodies, not for serialized ones (Uf.witness_comma_csv)',
     'Js.dumps_no_control': 'the serialized text contains no character below U+0020 (all control characters, including newlines, are escaped)',
 }
 TRUSTED = [
@@ -71,11 +93,16 @@ RULE = ('(a) caching contract: bodies (valid / truncated / wrong encoding / empt
         '(c) JSON format: float-free documents (nesting <= 5, escape-worthy/astral/control characters, ints up to the 4300-digit limit) serialized by JSONHandler vs the model byte for byte; JSON texts '
         '(documents re-spelled with arbitrary whitespace, short/\\uXXXX/surrogate-pair escapes, duplicate keys, -0; 0-2 single-character edits; injected invalid UTF-8; a fixed list of edge texts) '
         'deserialized by JSONHandler vs the model (value, not-found or malformed; plus the bare loads); texts whose value has a float or a lone surrogate are skipped and counted; '
+        '(d) form handler vs the Uf model: form documents of 0-4 names (8% the empty name) over an alphabet of reserved characters (& = + % , ; / ? #), space, controls, non-ASCII incl. astral, '
+        'literal escapes (%41, %zz, %2C), values str (15% empty) or lists of 0/1/2/3 strings (20% empty elements) x handler options (defaults, each of keep_blank / csv given or not): serialize bytes, '
+        'deserialize(serialize(d)) and the model normal form compared; 35% also through resp.media on a WSGI/ASGI app and req.get_media()/req.media on another (default-installed or configured handler); '
+        'plus generated bodies (fields with literal commas, plus signs, escapes, "&&", raw UTF-8 / latin-1 bytes, empty) x options: parsed mapping or MediaMalformedError, 30% also through a full app; '
         'non-trivial = body non-empty; distinct = distinct (stack, content type, body, call sequence) / distinct document / distinct text')
 PARTIAL = ('proved: the caching / error-caching / default contract of get_media, the JSON wrapper error mapping, the response render cache, and the JSON round trip '
            'loads(dumps(d)) = d over a native model of the text format for float-free documents (distinct keys, ints <= 4300 digits). '
            'Not proved: the round trip of float values (repr/float parsing; validated by the round-trip oracle only), documents nested beyond the interpreter recursion limit (a resource limit, '
-           'not modelled), the form (urlencoded) round trip (C08); chunking independence is inherited from C07.')
+           'not modelled); chunking independence is inherited from C07. The form (urlencoded) round trip IS proved (Uf.deserialize_serialize, on top of the C08 parser theorems) for '
+           'documents whose names and values are str (valid UTF-8, no lone surrogates) or lists of str; non-str scalars (urlencode applies str() to them), bytes values and nested sequences are outside the Uf model.')
 JOBS = {'quick': 4, 'thorough': 16}
 LEVEL_TEXT = ('Lean 4 theorems over a model of Request.get_media (both request classes), the JSON handler wrapper and the response render cache: for every handler outcome and every call '
               'sequence the handler runs at most once, later calls return the same object or error without touching the stream, the default is returned only for media-not-found and never '
@@ -975,7 +1002,7 @@ def run(ctx):
         ctx.count('fullstack_app_' + c_out)
 
     # ------------------------------------------------------------ (c) the JSON text format of the default handler vs the Js model
-    from runner import hx
+    from runner import hx, alarm, Hang
     js = ctx.session('JSONHandler.serialize / deserialize = Js model (dumps / loads, byte level)', 'jsdriver')
     jh = media.JSONHandler()
     for ci in range(ctx.n(1200, 15000)):
@@ -1050,3 +1077,168 @@ def run(ctx):
             js.op('loads ' + hx(b), 'none' if e == 'mal' else 'some' + e[2:])
     js.finish()
     sess.finish()
+
+    # ------------------------------------------------------------ (d) URLEncodedFormHandler vs the Uf model (urlencode / parse_query_string)
+    uf = ctx.session('URLEncodedFormHandler.serialize / deserialize = Uf model (quote_plus fields joined by "&"; ascii check + Qs.parseQS)', 'ufdriver')
+    name_d = ('form round trip: a mapping of distinct names to strings / lists of strings served as application/x-www-form-urlencoded reads back as the same mapping '
+              '(a list of one as its element, an empty list and dropped blank values absent), for every keep_blank / csv setting, directly and through WSGI and ASGI apps')
+    name_d2 = 'form bodies: an empty body is {}, a body with a non-ASCII byte is MediaMalformedError (400), every other body parses; nothing else is raised'
+    FORM_D = 'application/x-www-form-urlencoded'
+    ATOMS = ['a', 'b', 'z', '0', ' ', '&', '=', '+', '%', ',', ';', '/', '?', '#', '~', '-', '_', '.', '*', '"', "'", '\\', '\x00', '\n', '\x7f',
+             '\xe9', '€', '\U0001f600', '%41', '%zz', '%2C', '%', '+', ',', ' ']
+
+    def uf_text(lo, hi):
+        return ''.join(rnd.choice(ATOMS) for _ in range(rnd.randint(lo, hi)))
+
+    def uf_s(s): return '.'.join(str(ord(c)) for c in s) or '-'
+
+    def uf_show(res):
+        if isinstance(res, str): return res
+        if not res: return '{}'
+        return ' '.join(uf_s(k) + '=' + ('m:' + ','.join(uf_s(x) for x in v) if isinstance(v, list) else '1:' + uf_s(v)) for k, v in res.items())
+
+    def uf_enc(doc):
+        if not doc: return '-'
+        return ';'.join(hx(k.encode()) + '=' + ('m:' + ','.join(hx(x.encode()) for x in v) if isinstance(v, list) else '1:' + hx(v.encode())) for k, v in doc.items())
+
+    def uf_des(h, body):
+        try:
+            with alarm(3):
+                r = h.deserialize(io.BytesIO(body), FORM_D, len(body))
+            return r if isinstance(r, dict) else 'not-a-dict:' + type(r).__name__
+        except errors.MediaMalformedError as e:
+            return 'malformed' if e.status.startswith('400') else 'malformed-with-status-' + e.status
+        except Hang:
+            return 'hang'
+        except Exception as e:  # noqa
+            return 'error:' + type(e).__name__
+
+    def uf_normal(doc, kb):
+        """the reading of the statement: same names in order; per name the values that a form can carry"""
+        out = {}
+        for k, v in doc.items():
+            vals = [x for x in (v if isinstance(v, list) else [v]) if x != '' or (kb and k != '')]
+            if len(vals) == 1: out[k] = vals[0]
+            elif vals: out[k] = vals
+        return out
+
+    def uf_same(a, b):
+        return isinstance(a, dict) and list(a.items()) == list(b.items()) and all(type(a[k]) is type(b[k]) for k in a)
+
+    OPTS = [(None, None), (None, None), (True, False), (False, False), (True, True), (False, True), (None, True), (False, None)]
+    for ci in range(ctx.n(400, 6000)):
+        doc = {}
+        for _ in range(rnd.choice([0, 1, 1, 2, 2, 3, 4])):
+            k = '' if rnd.random() < 0.08 else uf_text(1, 4)
+            r = rnd.random()
+            if r < 0.55: v = uf_text(0, 6) if rnd.random() < 0.85 else ''
+            else: v = [('' if rnd.random() < 0.2 else uf_text(0, 4)) for _ in range(rnd.choice([0, 1, 1, 2, 2, 3]))]
+            doc[k] = v
+        kb, csv = rnd.choice(OPTS)
+        kw = {}
+        if kb is not None: kw['keep_blank'] = kb
+        if csv is not None: kw['csv'] = csv
+        okb, ocsv = ('-' if kb is None else str(int(kb))), ('-' if csv is None else str(int(csv)))
+        eff_kb = True if kb is None else kb                       # the DOCUMENTED default ("keep_blank=True, csv=False")
+        h = media.URLEncodedFormHandler(**kw)
+        case = {'document': doc, 'keep_blank': kb, 'csv': csv}
+        try:
+            body = h.serialize(copy.deepcopy(doc), FORM_D)
+        except Exception as e:  # noqa
+            ctx.oracle(name_d, False, f'serialize raised {type(e).__name__}: {e}', case); continue
+        res = uf_des(h, body)
+        uf.case(case)
+        uf.op('ser ' + uf_enc(doc), hx(body))
+        uf.op(f'rt {okb} {ocsv} {uf_enc(doc)}', uf_show(res))
+        uf.op(f'nf {okb} {uf_enc(doc)}', uf_show(res))
+        want = uf_normal(doc, eff_kb)
+        failed = None
+        if not isinstance(body, bytes): failed = f'serialize returned {type(body).__name__}'
+        elif not uf_same(res, want): failed = f'served {body[:80]!r}; read back {res!r}, the document is {want!r}'
+        exact = want == doc
+        ctx.count('form_doc_' + ('exact' if exact else 'normalised')); ctx.count(f'form_opts_kb{okb}_csv{ocsv}')
+        # through the apps: resp.media on one stack, req.get_media on the other
+        if failed is None and rnd.random() < 0.35:
+            s_out, s_in = rnd.choice(['wsgi', 'asgi']), rnd.choice(['wsgi', 'asgi'])
+            served = copy.deepcopy(doc); got = []
+            if s_out == 'wsgi':
+                class GF:
+                    def on_get(self, req, resp): resp.content_type = FORM_D; resp.media = served
+            else:
+                class GF:
+                    async def on_get(self, req, resp): resp.content_type = FORM_D; resp.media = served
+            if s_in == 'wsgi':
+                class PF:
+                    def on_post(self, req, resp): got.append(req.get_media()); got.append(req.media)
+            else:
+                class PF:
+                    async def on_post(self, req, resp): got.append(await req.get_media()); got.append(await req.media)
+            try:
+                a_out = build(s_out, 'plain'); a_out.add_route('/', GF())
+                a_in = build(s_in, 'plain'); a_in.add_route('/', PF())
+                if kw or rnd.random() < 0.5:                     # (no options: the handler the app installs by default is under test too)
+                    a_out.resp_options.media_handlers[FORM_D] = media.URLEncodedFormHandler(**kw)
+                    a_in.req_options.media_handlers[FORM_D] = media.URLEncodedFormHandler(**kw)
+                st, hd, wire = serve(s_out, a_out, 'GET')
+                if st != 200: failed = f'{s_out}: serving the form answered {st}'
+                elif wire != body: failed = f'{s_out}: resp.media rendered {wire[:80]!r}, the handler serializes {body[:80]!r}'
+                else:
+                    stp, _, _ = serve(s_in, a_in, 'POST', hd.get('content-type', FORM_D) if rnd.random() < 0.7 else FORM_D + '; charset=utf-8', wire)
+                    if stp != 200 or len(got) != 2: failed = f'{s_in}: posting the served form back answered {stp}'
+                    elif not uf_same(got[0], want): failed = f'{s_in}: req.get_media() gave {got[0]!r}, the document is {want!r}'
+                    elif got[1] is not got[0]: failed = f'{s_in}: the second access parsed again'
+                uf.op(f'rt {okb} {ocsv} {uf_enc(doc)}', uf_show(got[0]) if got else 'no-document')
+            except Exception as e:  # noqa
+                failed = f'{type(e).__name__}: {e}'
+            ctx.count(f'form_fullstack_{s_out}_to_{s_in}')
+        ctx.oracle(name_d, failed is None, failed, case)
+        ctx.seen(('uf', repr(doc), kb, csv), bool(doc))
+
+    for ci in range(ctx.n(300, 5000)):
+        r = rnd.random()
+        if r < 0.06: b = b''
+        else:
+            parts = []
+            for _ in range(rnd.randint(1, 4)):
+                parts.append(uf_text(0, 3) + (rnd.choice(['=', '=', '=', '', '==']) + uf_text(0, 5)))
+            t = rnd.choice(['&', '&', '&&', ';']).join(parts)
+            if r < 0.3: b = t.encode('utf-8')                                       # non-ASCII atoms stay raw: malformed when present
+            elif r < 0.4: b = t.encode('latin-1', 'replace')
+            else: b = t.encode('ascii', 'ignore')
+        kb, csv = rnd.choice(OPTS)
+        kw = {}
+        if kb is not None: kw['keep_blank'] = kb
+        if csv is not None: kw['csv'] = csv
+        okb, ocsv = ('-' if kb is None else str(int(kb))), ('-' if csv is None else str(int(csv)))
+        res = uf_des(media.URLEncodedFormHandler(**kw), b)
+        case = {'body': b, 'keep_blank': kb, 'csv': csv}
+        uf.case(case); uf.op(f'des {okb} {ocsv} {hx(b)}', uf_show(res))
+        nonascii = any(c >= 128 for c in b)
+        failed = None
+        if nonascii and res != 'malformed': failed = f'a body with a non-ASCII byte gave {res!r}'
+        elif not nonascii and not isinstance(res, dict): failed = f'an ASCII body gave {res!r}'
+        elif b == b'' and res != {}: failed = f'the empty body gave {res!r}'
+        elif isinstance(res, dict) and not csv and sum(len(v) if isinstance(v, list) else 1 for v in res.values()) > sum(1 for f in b.split(b'&') if f):
+            failed = f'without csv (documented default: off) {len(b.split(b"&"))} fields gave more values: {res!r}'     # a literal comma never splits
+        if failed is None and rnd.random() < 0.3:
+            s_in = rnd.choice(['wsgi', 'asgi']); got = []
+            if s_in == 'wsgi':
+                class PB:
+                    def on_post(self, req, resp): got.append(req.get_media())
+            else:
+                class PB:
+                    async def on_post(self, req, resp): got.append(await req.get_media())
+            try:
+                a_in = build(s_in, 'plain'); a_in.add_route('/', PB())
+                if kw: a_in.req_options.media_handlers[FORM_D] = media.URLEncodedFormHandler(**kw)
+                stp, _, _ = serve(s_in, a_in, 'POST', FORM_D, b)
+                full = 'malformed' if stp == 400 and not got else (got[0] if stp == 200 and got else f'status-{stp}')
+                uf.op(f'des {okb} {ocsv} {hx(b)}', uf_show(full))
+                if uf_show(full) != uf_show(res): failed = f'{s_in}: req.get_media() gave {full!r}, the handler gives {res!r}'
+            except Exception as e:  # noqa
+                failed = f'{type(e).__name__}: {e}'
+            ctx.count('form_body_fullstack_' + s_in)
+        ctx.count('form_body_' + ('malformed' if nonascii else 'empty' if not b else 'parsed'))
+        ctx.oracle(name_d2, failed is None, failed, case)
+        ctx.seen(('ufb', b, kb, csv), bool(b))
+    uf.finish()
